@@ -310,6 +310,19 @@ def c17_family():
             out.append(dict(mod="gen::c17g", name=f"{side}_reuse_{fr}_{k1}_{r1}_{s1}_to_{to}_{k2}_{r2}_{s2}", unwind=66,
                             body=f"crate::c17::{side}_reuse::<{T1}, {T2}>({k1}, {r1}, {s1}, {k2}, {r2}, {s2}, {'true' if same else 'false'}, {conv})",
                             kind=side, fr=fr, to=to, a=(k1, r1, s1), b=(k2, r2, s2), same=same))
+    # reset chains on one object: shrink, then grow again within the capacity held (seed C17c)
+    chains = [
+        ("high", [(5, 2, 130), (2, 1, 2), (3, 2, 66)]), ("high", [(3, 2, 130), (3, 2, 2), (3, 2, 64), (3, 2, 128)]),
+        ("low", [(2, 5, 130), (1, 2, 2), (2, 3, 66)]), ("low", [(2, 3, 128), (2, 3, 2), (1, 3, 66), (2, 3, 128)]),
+    ]
+    for rate, cfgs in chains:
+        for side in ("enc", "dec"):
+            T = (ENC_TY if side == "enc" else DEC_TY)[rate] + "<N>"
+            tag = "_".join(f"{a}x{b}x{c}" for a, b, c in cfgs)
+            arr = ", ".join(f"({a}, {b}, {c})" for a, b, c in cfgs)
+            out.append(dict(mod="gen::c17g", name=f"{side}_chain_{rate}_{tag}", unwind=66,
+                            body=f"crate::c17::{side}_chain::<{T}>(&[{arr}])",
+                            kind=side + "_chain", fr=rate, to=rate, cfgs=cfgs, same=True))
     return out
 
 
@@ -497,6 +510,11 @@ def c04_family():
         for q in qs:
             out.append(dict(mod="gen::c04g", name=f"layout_work_{sb}_q{q}", unwind=max(140, sb + 8),
                             body=f"crate::c04::layout_work::<HighRateEncoder<crate::c04::LookEngine>>({sb}, {q})", kind="layout_work", sb=sb, q=q))
+    # undo over ranges of 4..9 shards with 1..3 blocks per shard (seed C04c)
+    for rate, r in (("high", 4), ("high", 5), ("high", 8), ("low", 4), ("low", 7), ("low", 9)):
+        for sb in (30, 66, 126, 130, 190):
+            out.append(dict(mod="gen::c04g", name=f"layout_range_{rate}_1_{r}_{sb}", unwind=max(140, sb + 8),
+                            body=f"crate::c04::layout_enc_range::<{ENC_TY[rate]}<crate::c04::FanEngine>>({r}, {sb})", kind="layout_range", rate=rate, r=r, sb=sb))
     S = "SpecEngine"
     for rate, k, r in (("high", 2, 1), ("low", 1, 2), ("high", 3, 2), ("low", 2, 3)):
         G = f"&crate::gen::gmat::G_{rate.upper()}_{k}_{r}"
